@@ -10,6 +10,7 @@ CONSTANTS
   FixNonRequest = TRUE
   FixLongWs = FALSE
   FarChoices = {TRUE, FALSE}
+  FixNullRequired = FALSE
   HasValidator = TRUE
   NilPointerSkipsValidation = TRUE
 INIT Init
